@@ -443,7 +443,7 @@ class ProgGen(object):
         sc.vars[q] = (self.exnp[ex], False)
         if body is None:
             body = self.expr(t, sc, d - 1)
-        if t == self.exnp[ex]:               # make the carried value count
+        if t == self.exnp[ex] and body.get("e") != "throw":               # make the carried value count
             body = prim(("si" if t == SI else "bi") + ".add", var(q), body)
         return {"exn": ex, "ps": [q], "body": body}
 
@@ -1104,8 +1104,15 @@ class ProgGen(object):
             return {"e": "seq", "t": UNIT, "es": [{"e": "print", "args": [{"e": "str", "s": "%s\n" % tag}]}]}
         for k in range(2):
             p1 = self.fresh("p")
+            def inner_body(i, ex):
+                # some handlers answer an exception by throwing another one (which the outer try tells apart)
+                if len(self.exns) > 1 and r.random() < 0.4:
+                    psc = Scope()
+                    psc.vars[p1] = (SI, False)
+                    return self.throw_node(r.choice([e_ for e_ in self.exns if e_ != ex]), psc, 1)
+                return lit(SI, -(i + 1))
             inner = {"e": "try", "t": SI, "body": {"e": "call", "fi": r.choice(thr) + 1, "args": [var(p1)]},
-                     "hs": [self.handler(ex, SI, None, 1, body=lit(SI, -(i + 1)), use_payload=True) for i, ex in enumerate(r.sample(self.exns, r.randint(1, 2)))],
+                     "hs": [self.handler(ex, SI, None, 1, body=inner_body(i, ex), use_payload=True) for i, ex in enumerate(r.sample(self.exns, r.randint(1, 2)))],
                      "fin": fin("cleanup-inner%d" % k) if r.random() < 0.8 else {"e": "none"}}
             fi_ = {"name": self.fresh("f"), "ps": [p1], "pts": [SI], "rt": SI, "pure": False,
                    "body": {"e": "let", "x": self.fresh("v"), "t": SI, "v": inner, "body": None}}
